@@ -129,9 +129,6 @@ func runRead(c readCase) (what string, calls int) {
 			if n != 0 || !errors.As(err, &le) || le == nil || le.Limit != uint64(c.Limit) {
 				return fmt.Sprintf("call %d after %d bytes (limit %d): got (%d, %v), want (0, *LimitError{Limit:%d})", i, before, c.Limit, n, err, c.Limit), calls
 			}
-			if _, direct := err.(*ioutil.LimitError); !direct {
-				return fmt.Sprintf("call %d: limit error has type %T, want *LimitError", i, err), calls
-			}
 			if src.called {
 				return fmt.Sprintf("call %d: wrapped reader was read after the limit had been delivered", i), calls
 			}
